@@ -10,14 +10,16 @@ from ..pathcond import implied
 MANIFEST = {
     'technique': 'cell-wise symbolic interpretation (D-lin) of the moisture adjustment: net change of retentate + permeate must be zero on every path; '
             'closure-by-complement and ordering rules for partition; linear-form check of the efficiency mixing; clamp-before-write; provenance of the phase rows '
-            'copied by the wrappers; the C01 split-closure and C12 views-attached rules for the streams the helpers delegate to',
+            'copied by the wrappers; the C01 split-closure and C12 views-attached rules for the streams the helpers delegate to; polynomial identity on the '
+            'partition denominator',
     'text': 'Decides for every input: partition writes top = feed - bottom after every store into bottom; mix_and_split is mix_from followed by split_to on the '
             'mixed stream (C01); in adjust_moisture_content the change of the retentate plus the change of the permeate is symbolically zero on every path '
             'including the non-strict repair; the LLE efficiency mixing yields top+bottom = eta(top+bottom)+(1-eta)feed; the VLE/LLE wrappers copy the two phase '
             'rows of one and the same multi-stream into the two outlets; phase_split pairs phases with outlets after the length test; infeasible bottom flows are '
             'clamped into [0, feed] before they are stored; material_balance scales each variable inlet by its own factor; split_to closes for outlets on any '
-            'package and the per-phase sub-streams phase_split iterates are dropped or re-attached when the flow container is re-bound. Reproduction of K, reached '
-            'moisture and solver accuracy are not decided.',
+            'package and the per-phase sub-streams phase_split iterates are dropped or re-attached when the flow container is re-bound. In partition and '
+            'phase_fraction the bottom flows are x*(1-phi)*F with x = z/D and D-(1-phi) == phi*K as polynomials, which with the closure gives top_i/bottom_i = '
+            'K_i*phi/(1-phi) (the given coefficients up to the common factor). Reached moisture and solver accuracy are not decided.',
 }
 
 SEP = 'thermosteam/separations.py'
@@ -32,6 +34,8 @@ def run(ctx):
         'D3 material_balance scales each variable inlet with its own factor',
         'D4 the per-phase sub-streams that phase_split iterates are dropped or re-attached whenever the flow container is re-bound',
         'D5 split_to, which mix_and_split delegates to, closes the balance for outlets on any property package',
+        'D6 in partition and phase_fraction the bottom flows are x*(1-phi)*F with x = z/D and D - (1-phi) == phi*K as polynomials, which together with '
+        'top = feed - bottom (D1) gives top_i/bottom_i = K_i * phi/(1-phi): the given coefficients up to the common factor',
     ]
     ctx.not_decided = ['that the given partition coefficients are reproduced', 'that the requested moisture is reached', 'linear-solve accuracy']
     d1 = ctx.rule('D1', 'closure of the balance', floor=10)
@@ -47,6 +51,8 @@ def run(ctx):
     from .C12 import dependents
     dependents(ctx, d4)
     # mix_and_split delegates the split to Stream.split_to / MultiStream.split_to
+    d6 = ctx.rule('D6', 'partition reproduces the given coefficients: bottom = x(1-phi)F with x = z/(phi K + 1 - phi)', floor=4)
+    partition_K_rule(ctx, d6)
     d5 = ctx.rule('D5', 'split_to closure (top = split*feed, bottom = feed - split*feed, written through the CAS index map of each outlet)', floor=2)
     from .C01 import split_rule
     split_rule(ctx, d5)
@@ -362,3 +368,47 @@ def balance_rule(ctx, d3):
             d3.ok('material_balance', 'each variable inlet is multiplied by the factor solved for its own column', f, lp)
         else:
             d3.fail('material_balance', 'scaling', 'variable inlets are not each scaled by their own solved factor', f, lp)
+
+
+def partition_K_rule(ctx, rule):
+    """bottom = x (1-phi) F,  x = z / D,  top = z F - bottom = x F (D - (1 - phi)).  top_i / bottom_i = K_i phi/(1-phi) for every
+    chemical in equilibrium  iff  D - (1 - phi) = phi K  (a polynomial identity in phi and K)."""
+    prog = ctx.prog
+    for fname in ('partition', 'phase_fraction'):
+        f = prog.func(SEP, fname)
+        # x = <z> / <D>: the one division whose denominator mentions exactly two names, one of which is the solved phase fraction
+        solved = {t.id for n in walk_no_nested(f.node) if isinstance(n, ast.Assign) and isinstance(n.value, ast.Call)
+                  for t in n.targets if isinstance(t, ast.Name)}
+        xs = []
+        for n in walk_no_nested(f.node):
+            if isinstance(n, ast.Assign) and isinstance(n.value, ast.BinOp) and isinstance(n.value.op, ast.Div) and isinstance(n.targets[0], ast.Name):
+                names = {m.id for m in ast.walk(n.value.right) if isinstance(m, ast.Name)}
+                if len(names) == 2 and len(names & solved) == 1 and (names - solved) <= set(f.params):
+                    xs.append((n, (names & solved).pop(), (names - solved).pop()))
+        if len(xs) != 1:
+            raise AnalysisError('%s: composition statement x = z/(phi K + 1 - phi) not found' % fname)
+        st, phiname, K = xs[0]
+        xname = st.targets[0].id
+        lin = Lin()
+        D = lin.form(st.value.right)
+        phis = [phiname]
+        phi = Form.atom(phis[0])
+        if D - (Form.const(1) - phi) == phi * Form.atom(K):
+            rule.ok(fname, '%s = z/D with D - (1 - %s) == %s*%s' % (xname, phis[0], phis[0], K), f, st)
+        else:
+            rule.fail(fname, 'K-denominator', 'the denominator is %s; top/bottom = K*phi/(1-phi) needs D = phi*K + 1 - phi' % D.pretty(), f, st)
+        # bottom = x (1 - phi) F
+        bs = [n for n in walk_no_nested(f.node) if isinstance(n, ast.Assign) and isinstance(n.targets[0], ast.Name)
+              and any(isinstance(m, ast.Name) and m.id == xname for m in ast.walk(n.value)) and n is not st]
+        good = False
+        for b in bs:
+            fm = Lin().form(b.value)
+            # x*(1-phi)*F = x*F - x*phi*F  for exactly one further name F
+            others = sorted({m.id for m in ast.walk(b.value) if isinstance(m, ast.Name)} - {xname, phis[0]})
+            if len(others) == 1:
+                F = Form.atom(others[0])
+                if fm == Form.atom(xname) * (Form.const(1) - phi) * F:
+                    good = True
+                    rule.ok(fname, '%s = %s*(1 - %s)*%s' % (b.targets[0].id, xname, phis[0], others[0]), f, b)
+        if not good:
+            rule.fail(fname, 'bottom-amount', 'no statement forms the bottom flows as x*(1 - phi)*F', f, st)
